@@ -14,8 +14,10 @@ def mulVecT (n : Nat) (es : List (Nat × Nat × Float)) (x : List Float) : List 
 
 def norm2 (v : List Float) : Float := (v.foldl (fun s a => s + a * a) 0).sqrt
 
-def close (tol : Float) (a b : Float) : Bool :=
-  if a.isNaN || b.isNaN then a.isNaN && b.isNaN else (a - b).abs ≤ tol * (a.abs + b.abs) + 1e-13
+/-- relative comparison; the absolute slack is given by the caller in the unit of the compared quantities (the checks
+    must work for systems of any scale: a right-hand side of size 1e-12 is a right-hand side) -/
+def close (tol : Float) (a b : Float) (absf : Float) : Bool :=
+  if a.isNaN || b.isNaN then a.isNaN && b.isNaN else (a - b).abs ≤ tol * (a.abs + b.abs) + absf
 
 def checkKrylov : Rd Verdict := do
   let np ← rdNat; let method ← rdNat; let start ← rdNat; let n ← rdNat; let tolB ← rdInt; let maxIter ← rdInt
@@ -44,7 +46,7 @@ def checkKrylov : Rd Verdict := do
   for ((x, r), k) in (its.zip res).zipIdx do
     let tr := norm2 ((b.zip (mulVecT n es x)).map fun p => p.1 - p.2) / scale
     let r0 := (res.head?.getD 1).abs
-    if !((r - tr).abs ≤ 1e-6 * (r.abs + tr.abs) + 1e-9 * r0 + 1e-13) then
+    if !((r - tr).abs ≤ 1e-6 * (r.abs + tr.abs) + 1e-9 * r0) then
       return specFail (base ++ "/spec/reported_vs_true") s!"iterate {k}: reported {r}, true {tr}" feats
   -- the returned vector is the last iterate
   if its.length == iters + 1 then
@@ -73,7 +75,7 @@ def checkKrylov : Rd Verdict := do
   -- floor, and an iteration count that is decided below it is not compared (the specification clauses above still
   -- apply to the implementation's own history)
   let floor_ := 1e-7 * (res.head?.getD 1).abs
-  if !((m.res.zip res).all fun p => close drift p.1 p.2 || (p.1 - p.2).abs ≤ floor_) then
+  if !((m.res.zip res).all fun p => close drift p.1 p.2 0 || (p.1 - p.2).abs ≤ floor_) then
     return diff (base ++ "/history") s!"impl={showF res} model={showF m.res}" feats
   if m.res.length != res.length then
     -- a different iteration count is legitimate only when a residual sits on the threshold or the threshold lies
@@ -97,8 +99,9 @@ def checkDotNorm : Rd Verdict := do
     return ok feats
   let en := norm2 u
   let ei := (u.zip w).foldl (fun s p => s + p.1 * p.2) 0
-  if !close 1e-12 nrm en then return specFail (base ++ "/spec/norm_value") s!"got {nrm}, assembled vector has {en}" feats
-  if !close 1e-12 ip ei then return specFail (base ++ "/spec/dot_value") s!"got {ip}, assembled vectors give {ei}" feats
+  let dotUnit := (u.zip w).foldl (fun s p => s + (p.1 * p.2).abs) 0
+  if !close 1e-12 nrm en 0 then return specFail (base ++ "/spec/norm_value") s!"got {nrm}, assembled vector has {en}" feats
+  if !close 1e-12 ip ei (1e-13 * dotUnit) then return specFail (base ++ "/spec/dot_value") s!"got {ip}, assembled vectors give {ei}" feats
   return ok feats
 
 /-- preconditioned CG: reported history against the same quantity recomputed from the true residuals -/
